@@ -561,7 +561,7 @@ func c01Judge(c spec.Case, evs []spec.Event, d *Death) CaseResult {
 		}
 	}
 	if o.Returned && !o.KillReturned {
-		viol("kill-hang", "Kill after Start did not return in 30s")
+		viol("kill-hang", "Kill after Start did not return in 300 s")
 	}
 	if o.Returned && time.Duration(o.ElapsedMs)*time.Millisecond > N+2*time.Second {
 		res.Slow = fmt.Sprintf("Start took %dms (StartTimeout %v)", o.ElapsedMs, N)
